@@ -181,3 +181,35 @@ VX double verif_c01_raw2d(unsigned nx, unsigned ny, const double* xs, const doub
 	return f->Global_Maximum();
 }
 #endif
+
+// ---- C10: constructor guards.  mode 0: (x,y) lists of lengths nx, ny;  mode 1: data table with `nx` rows of `ny` columns (flattened in xs);  returns N of the constructed object
+VX unsigned verif_c10_ctor(int mode, unsigned nx, const double* xs, unsigned ny, const double* ys, double probe, double* out)
+{
+	if(mode == 0)
+	{
+		std::vector<double> x(xs, xs + nx), y(ys, ys + ny);
+		Interpolation f(x, y);
+		out[0] = f(probe);
+		return f.N;
+	}
+	std::vector<std::vector<double>> t(nx, std::vector<double>(ny));
+	for(unsigned i = 0; i < nx; i++)
+		for(unsigned j = 0; j < ny; j++)
+			t[i][j] = xs[i * ny + j];
+	Interpolation f(t);
+	out[0] = f(probe);
+	return f.N;
+}
+// 2D: grid nx x ny with `ragged` = 1 dropping the last entry of the last row, 2 = one row missing
+VX double verif_c10_ctor2d(unsigned nx, unsigned ny, const double* xs, const double* ys, const double* fs, int ragged, double px, double py)
+{
+	std::vector<double> x(xs, xs + nx), y(ys, ys + ny);
+	std::vector<std::vector<double>> f(nx, std::vector<double>(ny));
+	for(unsigned i = 0; i < nx; i++)
+		for(unsigned j = 0; j < ny; j++)
+			f[i][j] = fs[i * ny + j];
+	if(ragged == 1) f[nx - 1].pop_back();
+	if(ragged == 2) f.pop_back();
+	Interpolation_2D g(x, y, f);
+	return g(px, py);
+}
